@@ -56,11 +56,16 @@ CLAIMED["C13"] = dict(
    note=NOTE + " Not decided (pure, no schedule in it): that numeric means magnitude, contextual calendar position, date chronological, value larger-first. One known finding (--sort date with keys of mixed layouts) is listed in known_findings.json.",
    tech=TECH + "; metamorphic comparison of label sequences across seeded variants of one data set")
 
+CLAIMED["C10"] = dict(
+   text="Seeded search over templates (tree generator over the registered helper table; funcs files through the real loader with comments/blank lines/continuations and definitions calling earlier ones; {time live|delta|now}) evaluated by 1-4 workers that share one compiled, optimised expression and its context pools under the tape-driven scheduler with the fake clock advancing between lines; every emitted key is compared with a sequential un-optimised evaluation (funcs files: of the inlined tree with builtins only); live/delta must lie between the read and the consumption instant of their line, now must be the compile instant. A free-running -race leg covers pooled objects handed to two workers at once. Evidence over explored runs, not proof.",
+   ref="DESIGN.md section 5 C10",
+   note=NOTE + " Templates whose reference form does not compile or panics are redrawn (C08's subject); file-reading helpers (load/lookup/haskey), color and nested-loop templates that exceed the step budget are not exercised.",
+   tech=TECH + "; plus a free-running -race leg for shared pools")
+
 NA = {
  "C07": "pure: a sequential data structure folded over a sample list; no schedule, clock or fault in it (the end state for orders the pipeline produces is compared to an independent fold by C03's oracle)",
  "C08": "pure function of (template, context): nothing to schedule or fault; input generation would not be simulation",
  "C09": "pure parser round-trip over template strings",
- "C10": "check under construction in this session",
  "C11": "documented semantics of scalar helpers: pure functions of their arguments",
  "C12": "dissect vs its specification is pure per (pattern, line); its slice-lifetime clause is exercised through C02's retained matches",
  "C14": "renderers are pure functions of aggregator state and scale",
